@@ -82,4 +82,30 @@ def cases():
     apps = [{"name": "app", "sources": ["main.c"], "selects": ["?impl_a", "?impl_b"]}]
     for cli in ({"select": ["?impl_b"]}, {"select": ["impl_b"]}, {"select": ["?impl_b", "?impl_a"]}, {"disable": ["impl_a"]}, {"define": ["X+=cli", "X+=cli2"]}):
         out.append((base(mods, apps), cli))
+    # 14-17: download: (the generator does not fetch anything: tag files, phony statements, aliases)
+    DL = [{"name": "GIT_DOWNLOAD", "cmd": "D=$$(dirname ${out}); git clone ${url} -b ${commit} $$D && touch ${out}"},
+          {"name": "GIT_PATCH", "cmd": "D=$$(dirname ${out}); git -C $$D am ${in} && touch ${out}"}]
+    def dlbase(mods, apps, rules=None, **kw):
+        f = base(mods, apps, **kw)
+        f["laze-project.yml"][0]["contexts"][0]["rules"] = RULES + (DL if rules is None else rules)
+        return f
+    git = {"git": {"url": "https://example.org/libfoo.git", "commit": "0123abcd"}}
+    # a downloaded library needing a per-builder generated header (build dep), two builders, two apps
+    mods = [{"name": "libconfig", "is_build_dep": True, "build": {"cmd": ["gen > ${out}"], "out": ["gen/${builder}/libconfig.h"]}},
+            {"name": "libfoo", "depends": ["libconfig"], "download": git, "sources": ["foo.c", "bar.c"]},
+            {"name": "foo_glue", "srcdir": "${build-dir}/dl/./libfoo/glue", "sources": ["glue.c"], "depends": ["libfoo"]},
+            {"name": "plain", "sources": ["plain.c"]}]
+    apps = [{"name": "a1", "sources": ["main.c"], "depends": ["libfoo", "foo_glue"]}, {"name": "a2", "sources": ["m2.c"], "depends": ["libfoo", "plain"]}]
+    out.append((dlbase(mods, apps), {}))
+    # patches, dldir, a global build dep next to a download, an app that downloads its own sources
+    mods = [{"name": "cfg", "is_global_build_dep": True, "build": {"cmd": ["cfg > ${out}"], "out": ["gen/config.h"]}},
+            {"name": "vendor", "download": dict(git, patches=["0001-fix.patch", "0002-more.patch"], dldir="vendor-src"), "sources": ["v.c"]},
+            {"name": "user", "sources": ["user.c"], "uses": ["vendor"]}]
+    apps = [{"name": "app", "sources": ["main.c"], "depends": ["vendor", "user", "cfg"]},
+            {"name": "dlapp", "download": git, "sources": ["foo_downloaded.c"]}]
+    out.append((dlbase(mods, apps), {}))
+    # no GIT_DOWNLOAD rule; no GIT_PATCH rule; unsupported source kind
+    out.append((dlbase([{"name": "v", "download": git, "sources": ["v.c"]}], [{"name": "app", "sources": ["main.c"], "depends": ["v"]}], rules=[]), {}))
+    out.append((dlbase([{"name": "v", "download": dict(git, patches=["p.patch"]), "sources": ["v.c"]}], [{"name": "app", "sources": ["main.c"], "depends": ["v"]}], rules=DL[:1]), {}))
+    out.append((dlbase([{"name": "v", "download": {"git": {"url": "u", "branch": "main"}}, "sources": ["v.c"]}], [{"name": "app", "sources": ["main.c"], "depends": ["v"]}]), {}))
     return out
